@@ -150,6 +150,13 @@ theorem statusManifest_eq (ctx : Ctx κ) (s : Store κ) (sum : Digest) (cur : Op
       = statusManifest ctx s sum := by
   simp [quick, statusManifest]
 
+omit [DecidableEq κ] in
+/-- with the manifest recorded and in the cache, the manifest walked is the stored one -/
+theorem statusManifest_of_inCache {ctx : Ctx κ} {s : Store κ} {sum : Digest}
+    (hh : hasSum sum = true) (hhas : s.has sum = true) :
+    statusManifest ctx s sum = readManifest ctx s sum := by
+  simp [statusManifest, hh, hhas]
+
 /-- **Exact meaning of `ContentsMatch` for a directory artifact.** -/
 theorem dirStatus_iff (ctx : Ctx κ) (s : Store κ) : ∀ fuel, DirIff ctx s fuel := by
   intro fuel
@@ -177,18 +184,19 @@ theorem dirStatus_iff (ctx : Ctx κ) (s : Store κ) : ∀ fuel, DirIff ctx s fue
         Bool.true_and, Bool.and_eq_true, Option.some.injEq, exists_eq_left', UpToDate, if_true,
         Node.dir.injEq]
       constructor
-      · rintro ⟨⟨hall, hemp⟩, hty⟩
+      · rintro ⟨⟨⟨⟨hh, -, hhas⟩, hall⟩, hemp⟩, hty⟩
         rw [typedList_append, Bool.and_eq_true] at hty
-        exact ⟨es, cs, rfl, hcs, hch.mp ⟨hall, hty.1⟩, hunt.mp hemp⟩
-      · rintro ⟨es', cs', rfl, hcs', hall, hun'⟩
-        rw [hcs] at hcs'; cases hcs'
+        rw [statusManifest_of_inCache hh hhas] at hcs
+        exact ⟨es, cs, rfl, ⟨hh, hhas⟩, hcs, hch.mp ⟨hall, hty.1⟩, hunt.mp hemp⟩
+      · rintro ⟨es', cs', rfl, ⟨hh, hhas⟩, hcs', hall, hun'⟩
+        rw [statusManifest_of_inCache hh hhas, hcs'] at hcs; cases hcs
         have hemp := hunt.mpr hun'
         have hnil : es.filter (fun e => (findChild cs e.1).isNone) = [] := List.isEmpty_iff.mp hemp
         rw [hnil] at hun
         simp only [untrackedStatuses, Except.ok.injEq] at hun
         subst hun
         obtain ⟨h1, h2⟩ := hch.mpr hall
-        exact ⟨⟨h1, hemp⟩, by rw [List.append_nil]; exact h2⟩
+        exact ⟨⟨⟨⟨hh, hh, hhas⟩, h1⟩, hemp⟩, by rw [List.append_nil]; exact h2⟩
     · -- anything else: never up to date *and* typed
       rename_i hnd
       simp only [Except.ok.injEq] at h
@@ -243,7 +251,8 @@ theorem dirStatus_ok_of_upToDate (ctx : Ctx κ) (s : Store κ) :
   | succ fuel ih =>
     intro nm sum n h
     simp only [UpToDate, if_true] at h
-    obtain ⟨es, cs, rfl, hcs, hall, hun⟩ := h
+    obtain ⟨es, cs, rfl, ⟨hh, hhas⟩, hcs, hall, hun⟩ := h
+    rw [← statusManifest_of_inCache hh hhas] at hcs
     obtain ⟨tracked, htr⟩ := childStatuses_ok ih es cs hall
     have hnil : es.filter (fun e => (findChild cs e.1).isNone) = [] :=
       List.isEmpty_iff.mp ((filter_untracked_nil_iff es cs).mpr hun)
@@ -293,13 +302,14 @@ theorem childStatuses_all (ctx : Ctx κ) (s : Store κ) (fuel : Nat) (es : List 
     simp only [List.all_cons, Bool.and_eq_true, List.mem_cons, forall_eq_or_imp, ih r hr, hst',
       Except.ok.injEq, exists_eq_left']
 
-/-- **`ContentsMatch` of a directory, one level**: all manifest entries match and the listing has
-no entry the manifest does not name. -/
+/-- **`ContentsMatch` of a directory, one level**: the manifest is recorded and in the cache, all
+manifest entries match and the listing has no entry the manifest does not name. -/
 theorem dirStatus_cm_step {ctx : Ctx κ} {s : Store κ} {fuel : Nat} {nm : Bytes} {sum : Digest}
     {es : List (Name × Node κ)} {st : Status}
     (h : dirStatus ctx s (fuel + 1) nm false sum (some (.dir es)) = .ok st) :
     ∃ cs, statusManifest ctx s sum = .ok cs ∧
       (st.cm = true ↔
+        (hasSum sum = true ∧ s.has sum = true) ∧
         (∀ k ∈ cs, ∃ st', childStatus ctx s fuel es k = .ok st' ∧ st'.cm = true) ∧
         (∀ e ∈ es, (findChild cs e.1).isSome = true)) := by
   simp only [dirStatus] at h
@@ -314,6 +324,9 @@ theorem dirStatus_cm_step {ctx : Ctx κ} {s : Store κ} {fuel : Nat} {nm : Bytes
   subst h
   refine ⟨cs, hcs, ?_⟩
   simp only [Bool.and_eq_true, childStatuses_all ctx s fuel es cs tracked htr,
-    filter_untracked_nil_iff]
+    filter_untracked_nil_iff, quick]
+  constructor
+  · rintro ⟨⟨⟨hh, -, hhas⟩, h1⟩, h2⟩; exact ⟨⟨hh, hhas⟩, h1, h2⟩
+  · rintro ⟨⟨hh, hhas⟩, h1, h2⟩; exact ⟨⟨⟨hh, hh, hhas⟩, h1⟩, h2⟩
 
 end Dud
